@@ -533,7 +533,10 @@ def rule_lin(ctx: Ctx) -> RuleReport:
     else:
         raise AnalysisError("C19-LIN: default branch of process_element no longer has the recognised structure")
     loops = [n for n in top.node.body if isinstance(n, ast.For)]
-    if len(loops) == 1 and compare([loops[0]], "for child in omath_element:\n    child_result = process_element(child)\n    if child_result:\n        parts.append(child_result)", params=["omath_element"]) == "equal":
+    outv = next((c.args[0].id for r_ in walk_own(top.node) if isinstance(r_, ast.Return) and r_.value is not None for c in ast.walk(r_.value)
+                 if isinstance(c, ast.Call) and isinstance(c.func, ast.Attribute) and c.func.attr == "join" and c.args and isinstance(c.args[0], ast.Name)), "parts")
+    top_param = top.node.args.args[0].arg if top.node.args.args else "omath_element"
+    if len(loops) == 1 and compare([loops[0]], "for child in omath_element:\n    child_result = process_element(child)\n    if child_result:\n        parts.append(child_result)", params=[top_param, outv], template_params=["omath_element", "parts"]) == "equal":
         rep.ok({"top_level": "every direct child of the formula is converted once, in order"})
     else:
         rep.fail(Finding("C19-LIN", OMML, top.qual, norm(loops[0])[:160] if loops else "no loop", "top level no longer converts every direct child once, in order", line=top.node.lineno))
@@ -760,10 +763,12 @@ def rule_bal(ctx: Ctx) -> RuleReport:
     for n in walk_own(pe.node):
         if isinstance(n, ast.Call) and isinstance(n.func, ast.Attribute) and norm(n.func.value) == pname and n.func.attr in ("clear", "extend", "insert", "remove"):
             rep.fail(Finding("C19-BAL", OMML, pe.qual, short(n), "pending-radical stack is modified outside the push/pop protocol", line=n.lineno))
-    # drained at the end
+    # drained at the end (the output list is the one the final return joins, whatever it is called)
     drained = False
+    outv = next((c.args[0].id for r_ in walk_own(top.node) if isinstance(r_, ast.Return) and r_.value is not None for c in ast.walk(r_.value)
+                 if isinstance(c, ast.Call) and isinstance(c.func, ast.Attribute) and c.func.attr == "join" and c.args and isinstance(c.args[0], ast.Name)), "parts")
     for n in top.node.body:
-        s = norm(n)
+        s = norm(n).replace(f"{outv}.append(", "parts.append(")
         if is_stack and (f"parts.append('}}' * len({pname}))" in s or (isinstance(n, ast.For) and norm(n.iter) == pname and "parts.append('}')" in s)
                          or (isinstance(n, ast.While) and norm(n.test) == pname and "parts.append('}')" in s and f"{pname}.pop()" in s)):
             drained = True
